@@ -13,6 +13,7 @@ import PrioModel.Ctor
 import PrioModel.Par
 import PrioModel.Prio2
 import PrioModel.Poplar1
+import PrioModel.Dp
 
 /-! Line-protocol driver: one request per line on stdin, one answer per line on stdout. -/
 open Prio
@@ -955,6 +956,63 @@ def handlePop (args : List String) : String :=
       | _, _, _ => "bad-op"
     | _ => "bad-op"
 
+/-! ### differential privacy samplers -/
+
+def tapeOf (h : String) : Option Stream :=
+  (parseHex h).map fun bytes => let arr := bytes.toArray; fun i => arr.getD i 511
+
+def showSamp {α : Type} (sh : α → String) (r : Option (Option α × Nat)) : String :=
+  match r with
+  | some (some a, pos) => s!"{sh a} {pos}"
+  | some (none, _) => "fuel"
+  | none => "fuel"
+
+def handleDp (args : List String) : String :=
+  let fuel := 64
+  match args with
+  | ["below", bound, tape] =>
+    match bound.toNat?, tapeOf tape with
+    | some b, some S =>
+      match Dp.below S b 64 0 with
+      | some (v, pos) => s!"{v} {pos}"
+      | none => "fuel"
+    | _, _ => "bad-op"
+  | [op, num, den, tape] =>
+    match num.toNat?, den.toNat?, tapeOf tape with
+    | some n, some d, some S =>
+      if d = 0 then "bad-op" else
+      let γ := Dp.Q.mk' n d
+      match op with
+      | "bern" => match Dp.run S (Dp.bernoulli γ) 0 with
+        | some (b, pos) => s!"{b} {pos}"
+        | none => "fuel"
+      | "bexp1" => showSamp toString (Dp.run S (Dp.bexp1 γ fuel 1) 0)
+      | "bexp" => showSamp toString (Dp.run S (Dp.bexp γ fuel) 0)
+      | "geo" => showSamp toString (Dp.run S (Dp.geometric γ fuel) 0)
+      | "lap" => showSamp toString (Dp.run S (Dp.laplace γ fuel fuel) 0)
+      | "gauss" => showSamp toString (Dp.run S (Dp.gaussian γ fuel fuel) 0)
+      | _ => "bad-op"
+    | _, _, _ => "bad-op"
+  | ["noise", f, kind, en, ed, vec, tape] =>
+    let sens : Option Nat :=
+      match kind.splitOn ":" with
+      | ["svec", bits, len] => do pure (Dp.sumVecSensitivity (← bits.toNat?) (← len.toNat?))
+      | ["hist"] => some Dp.histogramSensitivity
+      | ["l1", max] => max.toNat?.map Dp.l1Sensitivity
+      | _ => none
+    match sens, en.toNat?, ed.toNat?, parseNatList vec, tapeOf tape with
+    | some sens, some en, some ed, some v, some S =>
+      if ed = 0 then "bad-op" else
+      withField f fun q _ =>
+      match Dp.laplaceScale sens (Dp.Q.mk' en ed) with
+      | none => "err"
+      | some scale =>
+        match Dp.addIidNoise S (q + 1) (Dp.laplace scale fuel fuel) v 0 with
+        | some (out, pos) => s!"ok {",".intercalate (out.map toString)} {pos}"
+        | none => "fuel"
+    | _, _, _, _, _ => "bad-op"
+  | _ => "bad-op"
+
 def handle (line : String) : String :=
   match line.trimAscii.toString.splitOn " " with
   | "fp" :: rest => handleFp rest
@@ -964,6 +1022,7 @@ def handle (line : String) : String :=
   | "c14" :: rest => handleC14 rest
   | "c19" :: rest => handleC19 rest
   | "pop" :: rest => handlePop rest
+  | "dp" :: rest => handleDp rest
   | "flp" :: op :: rest => handleFlp op rest
   | "poly" :: op :: rest => handlePoly op rest
   | "idpf" :: rest => handleIdpf rest
